@@ -123,13 +123,14 @@ Proof.
   - cbn [app]. erewrite vrun_cons_silent by reflexivity. apply vrun_csi_digits.
 Qed.
 
-Lemma toy_esc_visible cs lw s t : plain_b t = true -> vrun VGround (toy_esc cs lw s t) = (VGround, t).
+Lemma toy_esc_transparent cs lw s t o :
+  vrun VGround t = (VGround, o) -> vrun VGround (toy_esc cs lw s t) = (VGround, o).
 Proof.
-  intros H. unfold toy_esc. destruct t as [|ch t]; [reflexivity|]. cbn [is_nil].
+  intros H. unfold toy_esc. destruct t as [|ch t]; [exact H|]. cbn [is_nil].
   change ([27; 91] ++ print_Z s ++ [109] ++ (ch :: t) ++ [27; 91; 48; 109])
     with (27 :: 91 :: (print_Z s ++ 109 :: ((ch :: t) ++ [27; 91; 48; 109]))).
   erewrite !vrun_cons_silent by reflexivity. rewrite vrun_csi_printZ.
-  rewrite (vrun_ground_app (ch :: t) [27; 91; 48; 109] (ch :: t) [] VGround (vrun_plain _ H) eq_refl).
+  rewrite (vrun_ground_app (ch :: t) [27; 91; 48; 109] o [] VGround H eq_refl).
   rewrite app_nil_r. reflexivity.
 Qed.
 
